@@ -374,7 +374,52 @@ def r10_lossy_sends_are_the_api_only(ctx):
     R.floor("C04.R10", n, 1, "callers of MethodSink::try_send")
 
 
-RULES = [r1_typestate, r2_closed_check_first, r3_identity, r4_close_gating, r5_unsubscribe_key, r6_single_writer, r7_envelope_is_fresh, r8_sibling_registrars, r9_low_level_connection_is_driven_by_its_future, r10_lossy_sends_are_the_api_only, rflag_success_flag_matches_json]
+
+def r11_returned_messages_are_complete(ctx):
+    """a message the connection queue hands back (queue full / timed out / closed) already carries its envelope
+    (subscription id + method): everywhere in the connection-sink layer (server::helpers, server::error) such a message is
+    wrapped with SubscriptionMessage::from_complete_message - never with the `From<Box<RawValue>>` conversion, which marks
+    it as bare payload so that a handler that re-sends it gets it wrapped a second time"""
+    F, R = ctx.F, ctx.R
+    n = 0
+    for b in F.real_bodies():
+        if b.crate != CORE or is_test_body(b) or not re.search(r"jsonrpsee_core::server::(helpers|error)::|for jsonrpsee_core::server::(error|helpers)::", b.path):
+            continue
+        n += 1
+        for c in b.calls:
+            nm = c.name() or ""
+            into_msg = re.search(r"SubscriptionMessage as std::convert::From<std::boxed::Box<serde_json::value::RawValue>>>::from$", nm) or (re.search(r"Into>?::into$", c.callee or "") and c.dest and "SubscriptionMessage" in b.locals[c.dest["l"]]["ty"] and c.args and op_place(c.args[0]) is not None and "RawValue" in b.locals[op_place(c.args[0])["l"]]["ty"])
+            if into_msg:
+                # only messages that came back from the queue matter (has_capacity builds a fresh `null` placeholder)
+                lv = ctx.tracer(follow_callers=False, follow_fields=False).origins(b, c.args[0])
+                from_queue = any((l.kind == "call" and re.search(r"mpsc::.*Sender::<.*>::(send|try_send|send_timeout|reserve\w*)$|Future::poll$|IntoFuture::into_future$", l.detail["callee"] or "")) or l.kind in ("param", "field", "resume") for l in lv)
+                if not from_queue:
+                    continue
+                R.bad("C04.R11", "%s:bare-conversion" % fkey(b), "%s turns a message returned by the connection queue into a SubscriptionMessage with the bare-payload conversion: the message already carries its id/method envelope, a handler that re-sends it has it enveloped twice (the notification's result is a whole notification)" % short(b.path), where(c))
+    R.ok("C04.R11", "returned-messages-complete", "no bare-payload conversion of returned messages in %d sink-layer bodies" % n)
+    R.floor("C04.R11", n, 8, "bodies of the connection-sink layer")
+
+
+def rgen_generated_subscriptions(ctx):
+    """the names the #[rpc] macro gives a subscription's notifications (namespace, override) are the declared ones
+    (= C17.W1 over the generated corpus)"""
+    from . import c17
+    return c17.w_rules(ctx)
+
+LIB_RULES = [r1_typestate, r2_closed_check_first, r3_identity, r4_close_gating, r5_unsubscribe_key, r6_single_writer, r7_envelope_is_fresh, r8_sibling_registrars, r9_low_level_connection_is_driven_by_its_future, r10_lossy_sends_are_the_api_only, rflag_success_flag_matches_json, r11_returned_messages_are_complete]
+CONFIGS_QUICK = ["libs-all", "corpus"]
+CONFIGS_THOROUGH = ["libs-all", "facade-full", "corpus"]
+
+
+def _only(cfgs, rule):
+    def run(ctx):
+        if ctx.config in cfgs:
+            return rule(ctx)
+    run.__name__ = rule.__name__
+    return run
+
+
+RULES = [_only(("libs-all", "facade-full"), r) for r in LIB_RULES] + [_only(("corpus",), rgen_generated_subscriptions)]
 
 LEVEL_TEXT = (
     "Structural necessary conditions of the subscription notification contract decided from the type-checked program: "
